@@ -35,7 +35,7 @@ if exe is None:
 ck.log("harness built")
 work = ck.mkscratch()
 res = os.path.join(work, "out.json")
-nmod, na, nb = (24, 30, 30) if ck.thorough() else (3, 22, 22)
+nmod, na, nb = (24, 30, 30) if ck.thorough() else (2, 30, 30)
 # hand-written functions: the repository's own nilness testdata plus the corpus of earlier findings
 extra = os.path.join(work, "extra")
 os.makedirs(os.path.join(extra, "t"), exist_ok=True)
@@ -47,8 +47,11 @@ for fn in sorted(os.listdir(tdir)) if os.path.isdir(tdir) else []:
         src = re.sub(r"^package \w+", "package t", src, count=1, flags=re.M)
         open(os.path.join(extra, "t", "td_" + fn), "w").write(src)
 env = dict(GOENV); env["VERIF_REPO"] = REPO
-rc, out = sh([exe, "-work", work, "-out", res, "-seed", str(ck.seed), "-modules", str(nmod), "-na", str(na), "-nb", str(nb),
-              "-extra", extra, "-corpus", os.path.join(VERIF, "corpus", "C15", "mod")], timeout=3000, env=env)
+args = [exe, "-work", work, "-out", res, "-seed", str(ck.seed), "-modules", str(nmod), "-na", str(na), "-nb", str(nb),
+        "-corpus", os.path.join(VERIF, "corpus", "C15", "mod")]
+if ck.thorough():
+    args += ["-extra", extra]   # the repository's own testdata (pulls in os/exec and its dependencies: slow)
+rc, out = sh(args, timeout=3000, env=env)
 if rc != 0:
     ck.violation("harness-run", "harness run failed (analysis crashed or generated module did not build): " + out[-800:], {"log": out[-4000:]}, no_input=True)
     ck.finish({"evaluations": 1, "distinct_nontrivial": 0, "rule": "n/a", "samples": ["harness run failed"]})
